@@ -694,6 +694,49 @@ func TestC17_Typed(t *testing.T) {
 		if ro.Err != nil && ro.Err.Error() == "" {
 			t.Fatalf("repeated key/section: empty error message")
 		}
+		// a list-valued key written on two lines of one section (what merged include
+		// files produce): the typed list is what is written, in order - or a clean
+		// error; values are never dropped silently.
+		{
+			type lk struct {
+				key  string
+				a, b string
+				want []string
+				get  func(c *Config) []string
+			}
+			cands := []lk{
+				{"lan_interface", "br0, br1", "veth9", c17Strs("br0", "br1", "veth9"), func(c *Config) []string { return c.Global.LanInterface }},
+				{"wan_interface", "ppp0", "eth7,wlan3", c17Strs("ppp0", "eth7", "wlan3"), func(c *Config) []string { return c.Global.WanInterface }},
+				{"tcp_check_url", "'http://one.example/a'", "'http://two.example/b,9.9.9.9'", c17Strs("http://one.example/a", "http://two.example/b", "9.9.9.9"), func(c *Config) []string { return c.Global.TcpCheckUrl }},
+				{"udp_check_dns", "'one.example:53'", "'two.example:53,9.9.9.9'", c17Strs("one.example:53", "two.example:53", "9.9.9.9"), func(c *Config) []string { return c.Global.UdpCheckDns }},
+			}
+			var free []lk
+			for _, k := range cands {
+				if _, written := c.Global[k.key]; !written {
+					free = append(free, k)
+				}
+			}
+			if len(free) > 0 {
+				k := free[rapid.IntRange(0, len(free)-1).Draw(t, "list_key_twice")]
+				// c17InsertInto inserts at the top of the section: second line first
+				two, ok1 := c17InsertInto(c.Text, "global", k.key+": "+k.b)
+				two, ok2 := c17InsertInto(two, "global", k.key+": "+k.a)
+				if ok1 && ok2 {
+					lo := c17Build(two)
+					if lo.Panic != nil {
+						t.Fatalf("list key on two lines: %s panicked: %v\n%s\nconfig:\n%s", lo.Stage, lo.Panic, lo.Stack, two)
+					}
+					if lo.Err == nil {
+						if got := k.get(lo.Conf); !reflect.DeepEqual(got, k.want) {
+							t.Fatalf("%s is written on two lines (%s / %s) and accepted, but the typed configuration holds %q, not what is written (%q)\nconfig:\n%s", k.key, k.a, k.b, got, k.want, two)
+						}
+						cl = append(cl, "list_key_on_two_lines_accumulates")
+					} else {
+						cl = append(cl, "list_key_on_two_lines_rejected")
+					}
+				}
+			}
+		}
 		key := ""
 		if absent > 0 && len(c.Global) > 0 {
 			ks := []string{}
